@@ -1517,15 +1517,25 @@ func (l *lexer) scanCmdSubst(r rune) bool {
 		yyParse(ll)
 		ll.stop()
 		if ll.err != nil {
-			l.mu.Lock()
-			l.err = ll.err
-			if len(ll.stack) == 0 && r == '`' {
-				err := l.err.(Error)
-				l.err = Error{
-					Name: err.Name,
-					Pos:  err.Pos,
+			err := ll.err
+			if e, ok := err.(Error); ok && len(ll.stack) == 0 && r == '`' {
+				err = Error{
+					Name: e.Name,
+					Pos:  e.Pos,
 					Msg:  "syntax error: unexpected '`'",
 				}
+			}
+			l.mu.Lock()
+			switch prev, syntax := l.err.(Error); {
+			case l.err != nil && !syntax:
+				// a read error is never replaced
+			case syntax:
+				// the error nearest to the beginning of the input is reported
+				if e, ok := err.(Error); !ok || e.Pos.Before(prev.Pos) {
+					l.err = err
+				}
+			default:
+				l.err = err
 			}
 			l.mu.Unlock()
 			break
@@ -1665,6 +1675,13 @@ func (l *lexer) emit(typ int) {
 	}
 	l.word = nil
 	select {
+	case <-l.cancel:
+		// an error has been recorded: nothing more is delivered, whether
+		// or not the parser happens to be waiting
+		panic(errBailout)
+	default:
+	}
+	select {
 	case l.token <- tok:
 	case <-l.cancel:
 		// bailout
@@ -1753,11 +1770,14 @@ func (l *lexer) error(pos ast.Pos, msg string) {
 	l.mu.Lock()
 	defer l.mu.Unlock()
 
-	switch _, syntax := l.err.(Error); {
+	switch prev, syntax := l.err.(Error); {
 	case l.err != nil && !syntax:
 		// a read error is never replaced by a syntax error
 	case l.err != nil && strings.Contains(msg, ": unexpected EOF"):
 		return // lexing was interrupted
+	case syntax && !pos.Before(prev.Pos):
+		// the error nearest to the beginning of the input is reported,
+		// whichever goroutine finds its error first
 	default:
 		l.err = Error{
 			Name: l.name,
